@@ -72,9 +72,17 @@ def run_library(out, dmax, cmax):
                     S.observe(c3, 'flattened', compare=b)
                 record('%s d=%d cycles=%d' % (ctor, d, cycles), lambda build=build: (build(), S.take(final=False) if False else None))
         if d <= 3:
-            for rounds in ([0, 1], [2, 0, 1], [3]):
-                record('multi-round d=%d rounds=%s' % (d, rounds),
-                       lambda rounds=rounds, desc=desc, init=init: construct_repetition_code_multi_round_circuit(qec_cycles=list(rounds), description=desc, initial_state=init))
+            for rounds in ([0, 1], [2, 0, 1], [3], [1, 2]):
+                def build_multi(rounds=rounds, desc=desc, init=init):
+                    c = construct_repetition_code_multi_round_circuit(qec_cycles=list(rounds), description=desc, initial_state=init)
+                    if max(rounds) > 2:
+                        return                          # (observed once at the end only; the phases below are for <= 2 cycles per round)
+                    a = S.observe(c, 'constructed')
+                    c2 = c.apply_modifiers()
+                    b_ = S.observe(c2, 'unrolled', compare=a)
+                    c3 = c2.flatten()
+                    S.observe(c3, 'flattened', compare=b_)
+                record('multi-round d=%d rounds=%s' % (d, rounds), build_multi)
     S.uninstall()
     json.dump({'traces': traces, 'meta': meta}, open(out, 'w'))
     print(len(traces))
